@@ -43,6 +43,65 @@ def gen_values(rng, dt, n, big=False):
     return vals
 
 
+def gen_triples(rng, rows, cols):
+    """2-6 clusters [number, row, col] over at least two different pixels"""
+    npix = rows * cols
+    px = rng.sample(range(npix), 2) + [rng.randrange(npix) for _ in range(rng.choice([0, 1, 2, 4]))]
+    return [[rng.randrange(1, 900), q // cols, q % cols] for q in px]
+
+
+def adds_of(triples, rows, cols):
+    v = [0] * (rows * cols)
+    for n, r, q in triples:
+        v[r * cols + q] += n
+    return v
+
+
+def move_idx(drow, dcol, rows, cols):
+    return [((j // cols + drow) % rows) * cols + (j % cols + dcol) % cols for j in range(rows * cols)]
+
+
+def sim_charge(vals, op, rows, cols):
+    """harness-side mirror of what a charge operation does to the per-pixel totals (only used to keep the
+    generated histories well-defined: a removal never empties the dataframe)"""
+    if op[0] == "clusters":
+        return [a + b for a, b in zip(vals, adds_of(op[2], rows, cols))]
+    if op[0] == "cl_scale":
+        return [a * op[1] for a in vals]
+    if op[0] == "cl_move":
+        idx, out = move_idx(op[1], op[2], rows, cols), [0] * len(vals)
+        for j, v in enumerate(vals):
+            out[idx[j]] += v
+        return out
+    if op[0] == "cl_remove":
+        return [0 if j == op[1] else v for j, v in enumerate(vals)]
+    if op[0] == "add":
+        return [a + op[2] for a in vals]
+    raise ValueError(op)
+
+
+def gen_cluster_ops(rng, vals, rows, cols, many=False):
+    """1-3 operations on a charge bucket that holds clusters; returns (ops, new per-pixel totals)"""
+    ops = []
+    for _ in range(rng.choice([1, 2, 3] if many else [1, 1, 2])):
+        r = rng.random()
+        occupied = [j for j, v in enumerate(vals) if v > 0]
+        if r < 0.35:
+            op = ["cl_scale", rng.choice([2, 3, 5])]
+        elif r < 0.55 and rows * cols > 1:
+            d = rng.choice([(a, b) for a in range(rows) for b in range(cols) if (a, b) != (0, 0)])
+            op = ["cl_move", d[0], d[1]]
+        elif r < 0.72 and len(occupied) >= 2:
+            op = ["cl_remove", rng.choice(occupied)]
+        elif r < 0.86:
+            op = ["add", "charge", rng.randrange(1, 40)]
+        else:
+            op = ["clusters", rng.choice(["add_charge", "dataframe"]), gen_triples(rng, rows, cols)]
+        vals = sim_charge(vals, op, rows, cols)
+        ops.append(op)
+    return ops, vals
+
+
 def gen_case(rng, force=None):
     force = force or {}
     rows, cols = rng.choice([1, 2, 2, 3]), rng.choice([2, 3, 4])
@@ -65,26 +124,39 @@ def gen_case(rng, force=None):
     wl = [500.0, 600.0, 750.0][: rng.choice([2, 3])]
     owners = {}
     for b in ("photon", "signal", "image", "charge", "pixel"):
-        p = {"photon": 0.7, "signal": 0.6, "image": 0.75, "charge": 0.35, "pixel": 0.3}[b]
-        if force.get("image") and b == "image":
+        p = {"photon": 0.7, "signal": 0.6, "image": 0.75, "charge": 0.5, "pixel": 0.3}[b]
+        if (force.get("image") and b == "image") or (force.get("clusters") and b == "charge"):
             p = 1.0
+        if force.get("clusters") and b == "pixel":
+            p = 0.0
         if rng.random() < p:
             dt = rng.choice(UINTS) if b == "image" else (rng.choice(FLOATS) if b != "charge" else "float64")
             if b == "image" and force.get("image"):
                 dt = force["image"]
             owners[b] = {"model": rng.randrange(len(models)), "dtype": dt,
                          "mode": rng.choice(["const", "const", "step", "step", "step"]),
-                         "big": (b == "image" and dt == "uint64" and (force.get("big") or rng.random() < 0.5))}
+                         "big": (b == "image" and dt == "uint64" and (force.get("big") or rng.random() < 0.5)),
+                         "clusters": b == "charge" and (bool(force.get("clusters")) or rng.random() < 0.5)}
+    if force.get("clusters") and len(models) > 1:
+        owners["charge"]["model"] = rng.randrange(len(models) - 1)  # leave room for a model that modifies the clusters
     plan = []  # per step: per model: ops
     const_vals = {}
     for i in range(nsteps):
         step_ops = [[] for _ in models]
+        charge_vals, charge_frame = [0] * npix, False  # per-pixel totals / does the bucket hold clusters?
         for b, o in owners.items():
             n = npix * (len(wl) if (b == "photon" and photon3d) else 1)
+            if o.get("clusters"):
+                tr = const_vals.setdefault(b, gen_triples(rng, rows, cols)) if o["mode"] == "const" else gen_triples(rng, rows, cols)
+                step_ops[o["model"]].append(["clusters", rng.choice(["add_charge", "dataframe"]), tr])
+                charge_vals, charge_frame = adds_of(tr, rows, cols), True
+                continue
             if o["mode"] == "const":
                 vals = const_vals.setdefault(b, gen_values(rng, o["dtype"], n, o["big"]))
             else:
                 vals = gen_values(rng, o["dtype"], n, o["big"])
+            if b == "charge":
+                charge_vals = list(vals)
             if b == "photon" and photon3d:
                 step_ops[o["model"]].append(["set3d", o["dtype"], wl, vals])
             else:
@@ -92,10 +164,24 @@ def gen_case(rng, force=None):
         # later modifications by models after the owner: in-place add, rewrite of the same content
         for mi in range(len(models)):
             for b, o in owners.items():
+                if b == "charge" and mi > o["model"] and (charge_frame or rng.random() < 0.25):
+                    # the bucket holds clusters (or receives some now): modify them in place / remove / add
+                    if not charge_frame:
+                        tr = gen_triples(rng, rows, cols)
+                        step_ops[mi].append(["clusters", rng.choice(["add_charge", "dataframe"]), tr])
+                        charge_vals, charge_frame = sim_charge(charge_vals, step_ops[mi][-1], rows, cols), True
+                    if rng.random() < (0.9 if force.get("clusters") else 0.6):
+                        ops_, charge_vals = gen_cluster_ops(rng, charge_vals, rows, cols, many=bool(force.get("clusters")))
+                        step_ops[mi].extend(ops_)
+                    if "pixel" not in owners and rng.random() < 0.3:
+                        step_ops[mi].append(["collect"])
+                    continue
                 if mi > o["model"] and not (b == "photon" and photon3d) and not o["big"]:
                     r = rng.random()
                     if r < (0.4 if b == "charge" else 0.15) and o["dtype"] not in ("uint8", "float16"):
                         step_ops[mi].append(["add", b, rng.randrange(1, 40)])
+                        if b == "charge":
+                            charge_vals = sim_charge(charge_vals, step_ops[mi][-1], rows, cols)
                     elif r < 0.3 and b != "charge":
                         step_ops[mi].append(["same", b])
             if "pixel" not in owners and rng.random() < 0.3:
@@ -404,8 +490,16 @@ def lean_request(case):
                     # `Photon.to_xarray()` shows a 3-D array through `astype(None)`, i.e. as float64, in the result
                     # and in the debug record alike: the model tracks the dtype that `to_xarray` exposes
                     lops.append(["set", "photon", "float64", op[3]])
-                elif op[0] in ("add", "same"):
+                elif op[0] in ("add", "same", "collect"):
                     lops.append(op)
+                elif op[0] == "clusters":
+                    lops.append(["addat", "charge", adds_of(op[2], case["rows"], case["cols"])])
+                elif op[0] == "cl_scale":
+                    lops.append(["scale", "charge", op[1]])
+                elif op[0] == "cl_move":
+                    lops.append(["moveto", "charge", move_idx(op[1], op[2], case["rows"], case["cols"])])
+                elif op[0] == "cl_remove":
+                    lops.append(["zeroat", "charge", op[1]])
             ms.append({"group": g, "name": name, "ops": lops})
         ms.append({"group": "data_processing", "name": "snap", "ops": []})
         steps.append(ms)
@@ -457,6 +551,8 @@ def body(ck: common.Check):
             cases.append(("last-history", gen_last_history(rng, kind)))
     for _ in range(4 * k):
         cases.append(("scene-clash", gen_scene_clash(rng)))
+    for _ in range(14 * k):
+        cases.append(("charge-clusters", gen_case(rng, {"clusters": True, "nsteps": rng.choice([1, 2, 3])})))
     impls = pool_map(run_impl, [c for _, c in cases])
     answers = LeanDriver("C03").batch([lean_request(c) for _, c in cases])
     for (stream, case), impl, ans in zip(cases, impls, answers):
@@ -472,6 +568,8 @@ def body(ck: common.Check):
                 ck.count(f"dtype:{op[1]}={op[2]}")
             elif op[0] == "set3d":
                 ck.count("photon=3d")
+            elif op[0] in ("clusters", "cl_scale", "cl_move", "cl_remove", "collect"):
+                ck.count("charge-op=" + op[0] + (":" + op[1] if op[0] == "clusters" else ""))
         ck.count("scene-written", int(any(op[0] == "scene" for op in ops)))
         ck.count("data-written", int(any(op[0] == "data" for op in ops)))
         ck.count("second-run-on-same-detector", int(bool(case.get("second_run"))))
@@ -483,7 +581,9 @@ def body(ck: common.Check):
         compare_with_model(ck, case, impl, ans)
     ck.rule = ("pipelines of 1-8 writer probes over 1-4 groups + a snapshot probe last; 1-6 readouts, start time ≠ 0, both modes; "
                "buckets initialised in every step or in none, by a fixed owner model: photon 2-D/3-D (2-3 wavelengths) float16/32/64, "
-               "signal float16/32/64, image uint8/16/32/64 (uint64 also with values above 2^53), charge, pixel; constant or "
+               "signal float16/32/64, image uint8/16/32/64 (uint64 also with values above 2^53), charge (as array or as clusters put in "
+               "with add_charge / add_charge_dataframe, then rescaled or moved with set_frame_values, removed with remove_from_frame, "
+               "mixed with array additions and collected into pixel by later models), pixel; constant or "
                "step-dependent integer values; later models add in place or rewrite the same content; scene sources and processed "
                "data written at random; three runs per case (flat, hierarchical, debug), a quarter of the debug runs on a detector "
                "that already served an earlier debug run; directed histories for the debug snapshot `last`")
